@@ -197,6 +197,15 @@ func NewExplorer(p *Prog, fn *ssa.Function, h Hooks) *Explorer {
 					x.storedGlobal[a] = true
 				}
 			}
+			// a field a callee of this function may write can change between two loads just as well: a value
+			// loaded from it is then a register of its own (moving a store into a helper must not change verdicts)
+			if c, ok := in.(*ssa.Call); ok {
+				if g := c.Call.StaticCallee(); g != nil && inModule(g) {
+					for fv := range x.mods.of(g) {
+						x.storedField[fv] = true
+					}
+				}
+			}
 		}
 	}
 	n := 0
